@@ -106,7 +106,12 @@ impl TryFrom<&str> for Action {
     type Error = &'static str;
     fn try_from(s: &str) -> Result<Self, Self::Error> {
         let parts: Vec<&str> = s.split_whitespace().collect();
-        match parts[0].to_uppercase().as_str() {
+        match parts
+            .first()
+            .ok_or("empty action")?
+            .to_uppercase()
+            .as_str()
+        {
             "CHECK" => Ok(Action::Check),
             "FOLD" => Ok(Action::Fold),
             "CALL" => parts
